@@ -24,7 +24,7 @@ sys.set_int_max_str_digits(0)
 THEOREMS = ['Pyiga.Props.C11.' + t for t in [
     'gs_as_coded', 'gs_textbook', 'gs_duplicate_diagonal_not_textbook', 'gs_sweep_order', 'gs_backward_is_reversed',
     'gs_symmetric_is_forward_backward', 'gs_dense_sparse_agree', 'gs_fixed_point', 'gs_energy', 'gs_energy_le',
-    'gs_sweep_energy_le', 'subspace_correction_energy', 'subspace_correction_energy_le', 'mg_energy', 'mg_fixed_point', 'driver_stop', 'twogrid_stop',
+    'gs_sweep_energy_le', 'subspace_correction_energy', 'subspace_correction_energy_le', 'mg_energy', 'mg_fixed_point', 'driver_stop', 'driver_stop_zero_residual', 'twogrid_stop',
     'smoothing_sets',
 ]]
 MODULES = ['Pyiga.Model.Relax', 'Pyiga.Model.RatVec', 'Pyiga.Proofs.Relax', 'Pyiga.Proofs.RelaxMG', 'Pyiga.Props.C11']
@@ -364,12 +364,6 @@ def run(ctx):
     for r, g, m in zip(req, got, meta):
         nreq[m[0]] = nreq.get(m[0], 0) + 1
         bad = compare(ctx, r, g, m)
-        if bad and bad[0] == 'isolve:zero-initial-residual' and g == 'err-ZeroDivisionError':
-            # model and implementation agree (both raise); the *property* fails on this input
-            key, what, replay, found = bad
-            replay.update({'request': r[:3000], 'model': g[:2000]})
-            ctx.violation(key, what, replay, found)
-            continue
         if bad:
             ndis += 1
             if ndis <= 12:
@@ -505,8 +499,8 @@ def compare(ctx, r, g, m):
                 'smoother': smoother, 'tol': tol, 'maxiter': maxiter, 'A': Ad.tolist(), 'f': f.tolist(), 'implementation': tag}
         if g == 'err-singular':
             return None
-        if tag == 'err-ZeroDivisionError' and not np.any(f[nond]):
-            return ('isolve:zero-initial-residual', 'solve_hmultigrid raises ZeroDivisionError when f vanishes on the non-Dirichlet dofs', call, True)
+        if tag != 'ok' and not np.any(f[nond]):
+            return ('isolve:zero-initial-residual', 'solve_hmultigrid raises %s when f vanishes on the non-Dirichlet dofs' % tag, call, True)
         if tag != 'ok':
             return ('mgsolve-corr', 'solve_hmultigrid raised ' + tag, call, True)
         xs, ks, ratios = g.split(' ; ')
@@ -521,7 +515,9 @@ def compare(ctx, r, g, m):
         r_ = f - Ad @ x
         res0 = np.linalg.norm(f[nond]); resn = np.linalg.norm(r_[nond])
         verdict = None
-        if k != np.inf and not (res0 > 0 and resn / res0 < tol * (1 + 1e-6)):
+        if res0 == 0:
+            verdict = None if k == 0 else 'zero initial residual but %s iterations reported' % kimpl
+        elif k != np.inf and not (res0 > 0 and resn / res0 < tol * (1 + 1e-6)):
             verdict = 'returned k=%s but the residual reduction is %.3e >= tol %.1e' % (kimpl, resn / res0 if res0 else float('nan'), tol)
         elif k == np.inf and res0 > 0 and resn / res0 < tol * (1 - 1e-6):
             verdict = 'reported non-convergence although the final residual reduction %.3e < tol' % (resn / res0)
@@ -538,9 +534,10 @@ def compare(ctx, r, g, m):
         call = {'call': 'solvers.iterative_solve(lambda x: c*x+d, [[a]], [f], x0, tol=tol, maxiter=maxiter)', 'c': c, 'd': d, 'a': a, 'f': f, 'x0': x0,
                 'tol': tol, 'maxiter': maxiter, 'implementation': tag}
         res0_zero = (f - a * x0 == 0) if x0 is not None else (f == 0)
-        if tag == 'err-ZeroDivisionError' and res0_zero:
-            ctx.count('isolve: zero initial residual -> ZeroDivisionError')
-            return ('isolve:zero-initial-residual', 'iterative_solve raises ZeroDivisionError when the initial residual is zero (model mirrors: %s)' % g, call, True)
+        if res0_zero:
+            ctx.count('isolve: zero initial residual')
+            if tag != 'ok' or not (res[1] == 0):
+                return ('isolve:zero-initial-residual', 'iterative_solve with a zero initial residual: %s %s (expected (x0, 0))' % (tag, res if tag != 'ok' else res[1]), call, True)
         if tag != 'ok':
             return ('isolve-corr', 'iterative_solve raised ' + tag, call, True)
         x, k = res
@@ -556,13 +553,13 @@ def compare(ctx, r, g, m):
         xx = 0.0 if x0 is None else x0
         res0 = abs(f - a * xx) if x0 is not None else abs(f)
         kk = 0; verdict = None
-        while True:
+        while res0 != 0:
             xx = c * xx + d; kk += 1
             with np.errstate(all='ignore'):
                 conv = bool(np.float64(abs(f - a * xx)) / np.float64(res0) < tol)
             if conv or kk >= maxiter:
                 break
-        exp = (xx, kk if conv else np.inf)
+        exp = (xx, kk if conv else np.inf) if res0 != 0 else (xx, 0)
         if (float(np.ravel(x)[0]), k) != exp:
             verdict = 'returned (%r, %r), the stopping rule gives (%r, %r)' % (float(np.ravel(x)[0]), k, exp[0], exp[1])
         return ('isolve-corr', 'iterative_solve disagrees with the model' + ('; ' + verdict if verdict else ''), dict(call, implementation_result=want), verdict is not None)
